@@ -216,6 +216,10 @@ func HarnessC06Predicate() {
 	verif.Reach("uuids")
 	verif.Assert(uuid.Equal(ua, ub) == same, "C06/predicate/uuid-iff-equal")
 	verif.Assert(uuid.Equal(a.PartialUUID(), b.PartialUUID()) == (a.ID() == b.ID()), "C06/predicate/partial-uuid-iff-same-id")
+	// the UUID is a function of the value: asking again, after other values
+	// were hashed (pooled buffers may come back dirty), gives the same bytes
+	verif.Assert(uuid.Equal(a.UUID(), ua), "C06/predicate/uuid-deterministic")
+	verif.Assert(uuid.Equal(b.UUID(), ub), "C06/predicate/uuid-deterministic")
 }
 
 // symObject: 0 node, 1 text literal, 2 immutable predicate, 3 int64 literal.
@@ -280,6 +284,9 @@ func HarnessC06Triple() {
 	verif.Assert(oeq == sameO, "C06/object/uuid-iff-equal")
 	verif.Assert(eq == same, "C06/triple/equal-iff-components-equal")
 	verif.Assert(uuid.Equal(t1.UUID(), t2.UUID()) == eq, "C06/triple/uuid-consistent-with-equal")
+	u1 := t1.UUID()
+	t2.UUID()
+	verif.Assert(uuid.Equal(t1.UUID(), u1), "C06/triple/uuid-deterministic")
 }
 
 func symPredicateFromID(id string, kind int) *predicate.Predicate {
